@@ -174,8 +174,9 @@ def Ts.ok (t : Ts) : Prop := 0 ≤ t.loc ∧ t.loc ≤ maxLoc
 def totalSeconds (us : Int) : Dy := rnd us 1000000
 
 /-- the range check of `DurationType.__new__(timedelta)`:
-`MinSeconds <= seconds.total_seconds() <= MaxSeconds` (a float against ints) -/
-def durRangeOk (us : Int) : Bool := (totalSeconds us).geInt minSeconds && (totalSeconds us).leInt maxSeconds
+`timedelta(seconds=MinSeconds) <= seconds <= timedelta(seconds=MaxSeconds)` (exact) -/
+def durRangeOk (us : Int) : Bool :=
+  decide (minSeconds * 1000000 ≤ us) && decide (us ≤ maxSeconds * 1000000)
 
 /-- `DurationType(timedelta)` -/
 def durWrap (us : Int) : PyM Int := if durRangeOk us then .ok us else .error .valueError
@@ -310,17 +311,17 @@ inductive DUnit where
   | ns | us | ms | s | m | h | d
 deriving DecidableEq, Repr
 
-/-- `DurationType.scale` as exact values of the float literals (`1e-9` is the double nearest
-to 10⁻⁹, …): numerator and exponent of the power-of-two denominator. Regenerated into
-`Cel.Gen.Time` from the source with `float.as_integer_ratio()`; compared by `Cel.Bridge.Time`. -/
-def DUnit.scale : DUnit → Int × Nat
-  | .ns => (4835703278458517, 82)
-  | .us => (4722366482869645, 72)
-  | .ms => (1152921504606847, 60)
-  | .s => (1, 0)
-  | .m => (60, 0)
-  | .h => (3600, 0)
-  | .d => (86400, 0)
+/-- `Fraction(DurationType.scale[unit]).limit_denominator(NanosecondsPerSecond)`: the unit in
+seconds as an exact fraction. Regenerated into `Cel.Gen.Time` from the source by evaluating that
+very expression on the extracted table; compared by `Cel.Bridge.Time`. -/
+def DUnit.scale : DUnit → Nat × Nat
+  | .ns => (1, 1000000000)
+  | .us => (1, 1000000)
+  | .ms => (1, 1000)
+  | .s => (1, 1)
+  | .m => (60, 1)
+  | .h => (3600, 1)
+  | .d => (86400, 1)
 
 /-- the unit alternation `(?:ns|us|µs|ms|s|m|h|d)`: `sorted(scale, key=len, reverse=True)`
 puts the two-letter units first, so `ms` wins over `m` -/
@@ -368,37 +369,35 @@ def parseItems : Nat → List Nat → Option (List Item)
 
 def digitsVal (ds : List Nat) : Nat := ds.foldl (fun a c => a * 10 + (c - 48)) 0
 
-/-- Python `float(text)` for `text = ip` or `ip.fp`: correctly rounded; `ValueError` when the
-text has no digit at all (`""`, `"."`) -/
-def floatOfDecimal (ip : List Nat) (fp : Option (List Nat)) : PyM Dy :=
-  let f := fp.getD []
-  if ip.isEmpty && f.isEmpty then .error .valueError
-  else .ok (rnd (digitsVal (ip ++ f)) (10 ^ f.length))
+/-- exact non-negative rational `num / den` -/
+structure Q where
+  num : Nat
+  den : Nat
+deriving Repr, DecidableEq
 
-/-- `float(n_u.group(1)) * cls.scale[n_u.group(3)]` -/
-def itemSeconds (it : Item) : PyM Dy := do
-  let x ← floatOfDecimal it.ip it.fp
-  pure (x.mulQ it.u.scale.1 (2 ^ it.u.scale.2))
+def Q.add (a b : Q) : Q := ⟨a.num * b.den + b.num * a.den, a.den * b.den⟩
 
-def itemsSeconds : List Item → PyM (List Dy)
-  | [] => .ok []
+/-- `Fraction(text)` for `text = ip` or `ip.fp`; `ValueError` when the text has no digit at all
+(`""`, `"."`) -/
+def fractionOfDecimal (ip : List Nat) (fp : Option (List Nat)) : PyM Q :=
+  if ip.isEmpty && (fp.getD []).isEmpty then .error .valueError
+  else .ok ⟨digitsVal (ip ++ fp.getD []), 10 ^ (fp.getD []).length⟩
+
+/-- `Fraction(n_u.group(1)) * Fraction(cls.scale[n_u.group(3)]).limit_denominator(10**9)` -/
+def itemSeconds (it : Item) : PyM Q := do
+  let x ← fractionOfDecimal it.ip it.fp
+  pure ⟨x.num * it.u.scale.1, x.den * it.u.scale.2⟩
+
+/-- `sum(..., Fraction(0))` over the items, left to right; the first bad number raises -/
+def itemsSeconds : List Item → PyM Q
+  | [] => .ok ⟨0, 1⟩
   | it :: r => do
     let x ← itemSeconds it
     let xs ← itemsSeconds r
-    pure (x :: xs)
+    pure (x.add xs)
 
-/-- `timedelta(seconds=x)` for a float `x` (CPython `_datetime.c`: `accum` + `delta_new`):
-the integer part is exact, the fraction is multiplied by 1e6 IN FLOAT, and the total is rounded
-half-even to a whole microsecond -/
-def usOfFloatSeconds (x : Dy) : Int :=
-  let ip := x.trunc
-  let fnum := x.num - ip * ((2 ^ x.k : Nat) : Int)      -- fractional part · 2^k
-  if fnum = 0 then ip * 1000000
-  else
-    let p := rnd (fnum * 1000000) (2 ^ x.k)
-    rneInt (ip * 1000000 * ((2 ^ p.k : Nat) : Int) + p.num) (2 ^ p.k)
-
-/-- `DurationType(text)` -/
+/-- `DurationType(text)`: validate with the regex, strip the sign, add the components exactly,
+range-check the exact sum, round half-even to a whole microsecond -/
 def durParse (text : List Nat) : PyM Int := do
   let body := if text.getLast? = some 10 then text.dropLast else text   -- `$` before a final newline
   let (neg, rest) : Bool × List Nat := match body with
@@ -408,10 +407,11 @@ def durParse (text : List Nat) : PyM Int := do
   match parseItems (rest.length + 1) rest with
   | none => .error .valueError
   | some items =>
-    let xs ← itemsSeconds items
-    let tot := Dy.fsum xs
-    let secs := if neg then tot.neg else tot
-    if secs.geInt minSeconds && secs.leInt maxSeconds then .ok (usOfFloatSeconds secs)
+    let tot ← itemsSeconds items
+    -- MinSeconds <= sign*total <= MaxSeconds  (total ≥ 0; the bounds are symmetric)
+    if tot.num ≤ maxSeconds.toNat * tot.den then
+      let us : Int := ((rne (tot.num * 1000000) tot.den : Nat) : Int)
+      .ok (if neg then -us else us)
     else .error .valueError
 
 /-! ## 5. decimal text of integers (`str(int)`) -/
